@@ -73,7 +73,7 @@ FLOORS = {
     # every floor is at most half of the smallest count seen over seeds 0-5 (quick) / seeds 0-1 (thorough); map.fixture counts the 8 fixture maps of armi's own test module per maps shard (a fixed number)
     "quick": {"placement": 1200, "block": 4500, "component": 20000, "dimension": 40000, "link": 10000, "massfrac": 18000, "density": 18000,
               "matmod": 500, "custom-isotopics": 1500, "pin-lattice": 2000, "flags": 25000, "map.fixture": 4, "map.read-mine": 150,
-              "map.text-roundtrip": 120, "map.contents-roundtrip": 75, "grid.save-roundtrip": 145, "determinism": 30, "invalid.refused": 25,
+              "map.text-roundtrip": 120, "map.contents-roundtrip": 75, "map.contents.annular-offered": 9, "grid.save-roundtrip": 145, "determinism": 30, "invalid.refused": 25,
               "inputs-unchanged": 140, "order-independence": 28, "shared-isotopics.unmodified-user": 80, "class-blend": 100,
               "docs.cart-map-with-placeholder-padding": 6,
               "geometry.grid": 1000, "geometry.symmetry": 1000, "geometry.hex-orientation": 750, "geometry.pitch": 700, "geometry.cell-centre": 3300,
@@ -82,7 +82,7 @@ FLOORS = {
               "area.DifferentialRadialSegment": 120, "area.Helix": 1200, "shape-probe.built": 18},
     "thorough": {"placement": 28000, "block": 100000, "component": 450000, "dimension": 1000000, "link": 250000, "massfrac": 400000, "density": 400000,
                  "matmod": 13000, "custom-isotopics": 40000, "pin-lattice": 55000, "flags": 600000, "map.fixture": 4, "map.read-mine": 1400,
-                 "map.text-roundtrip": 1200, "map.contents-roundtrip": 750, "grid.save-roundtrip": 1400, "determinism": 500, "invalid.refused": 200,
+                 "map.text-roundtrip": 1200, "map.contents-roundtrip": 750, "map.contents.annular-offered": 93, "grid.save-roundtrip": 1400, "determinism": 500, "invalid.refused": 200,
                  "inputs-unchanged": 3000, "order-independence": 700, "shared-isotopics.unmodified-user": 2500, "class-blend": 2500,
                  "docs.cart-map-with-placeholder-padding": 150,
                  "geometry.grid": 25000, "geometry.symmetry": 25000, "geometry.hex-orientation": 18000, "geometry.pitch": 16000, "geometry.cell-centre": 80000,
@@ -2239,6 +2239,17 @@ def ragged_contents(rng, kind):
                 cells = [c for c in cells if in_third(*c)]
     keep = rng.choice([.15, .4, .7, 1.0])
     cont = {c: rng.choice(toks) for c in cells if rng.random() < keep}
+    if kind != "cart" and R >= 2 and shape.endswith("/inside") and rng.random() < (.5 if kind == "hex-third" else .2):
+        # an annular layout: the outline is complete, the centre (and now and then a cell next to it) is empty - a legal core or pin
+        # lattice whose first or last text row is blank
+        cont = {c: rng.choice(toks) for c in cells}
+        cont.pop((0, 0), None)
+        if kind == "hex-third" and rng.random() < .6:
+            for c in [c for c in cont if c[0] + 2 * c[1] == 0]:  # the whole text row of the centre (cells on the y=0 line) is empty
+                cont.pop(c)
+        if rng.random() < .3:
+            cont.pop(rng.choice([c for c in cont if ring_of(*c) == 2]), None)
+        shape = kind + "/inside-no-centre"
     if not cont:
         cont = {cells[0]: toks[0]}
     if kind == "hex-third" and shape.endswith("outside-first-third") and all(in_third(*c) for c in cont):
@@ -2319,7 +2330,17 @@ def judge_map_text(rec, rng, i, thorough):
 
 def judge_map_contents(rec, rng, i):
     kind = rng.choice(["hex-third", "hex-full", "hexcu-full", "cart"])
+    if i % 6 == 3:
+        # every sixth case: a third core whose outline is complete and whose centre row is empty (annular core, pin lattice without centre pin)
+        kind = "hex-third"
+        R_ = rng.randint(2, 6)
+        toks_ = _tokens(rng, 3)
+        forced = {c: rng.choice(toks_) for c in hex_cells(R_) if in_third(*c) and c[0] + 2 * c[1] != 0}
+    else:
+        forced = None
     cont, shape = ragged_contents(rng, kind)
+    if forced:
+        cont = forced
     oc = outline_class(kind, cont)
     shape = "%s/%s" % (kind, oc)
     sig = {"kind": kind, "shape": shape, "cells": len(cont)}
@@ -2332,6 +2353,8 @@ def judge_map_contents(rec, rng, i):
         text = str(m)
     except Exception as e:
         rec.reject("contents refused (%s): %s" % (shape, type(e).__name__))
+        if (0, 0) not in cont and oc == "complete-outline":
+            rec.hit("map.contents.annular-offered")
         return dict(sig, outcome="refused")
     w["written"] = text
     if oc == "outside-first-third":
@@ -2340,6 +2363,8 @@ def judge_map_contents(rec, rng, i):
         rec.skip("cells outside the first third given directly to the third-core map class (saveToStream filters them first)")
         return dict(sig, outcome="unjudged")
     rec.hit("map.contents-roundtrip")
+    if (0, 0) not in cont and oc == "complete-outline":
+        rec.hit("map.contents-roundtrip.annular")
     try:
         m2 = cls()
         m2.readAscii(text)
